@@ -6,6 +6,13 @@
 //       | w:K0,K1,..   the integer expression  end - tmp  with tmp = (K0,K1,..): entries len-1-K
 //       | u:VE:a,b,c   the integer expression VE over the intVector v = (a,b,c), e.g. u:(9-v):1,3,0  (menu VSHAPES below)
 //     a scalar selector i:E may be a rich expression of the first XMENU2 shapes of drv_views.h (letter Y)
+//       | f:a,b,c      a FixedArray<int,false,3> holding a,b,c (its value_with_len_ is a separate copy of the accessor)
+//     the entry list of v: x: w: u: may carry a LAYOUT prefix `L|a,b,c`: the intVector is then not a dense vector but a
+//     VIEW holding these entries in index order (Array::value_with_len_ must step with the view's own offset):
+//       sOFF.STR  big(stride(OFF, OFF+(n-1)*STR, STR)) of a larger intVector (STR < 0: reversed; OFF > 0: offset)
+//       cK.NC     column K of an n x NC intMatrix, IM(__,K)        rK.NR   row K of an NR x n intMatrix, IM(K,__)
+//     (the cells of the larger object that are not entries hold other entries of the list, so that a wrong step still
+//      reads valid indices); the selector denotes exactly the listed entries whatever the layout
 //   cix S0 S1 ...     the same call made on a const reference to the view (const overload of operator())
 // The op does not change the current view (an IndexedArray is an expression, not an Array).  Answer:
 //   err <class>                                  the constructor of the IndexedArray threw
@@ -17,9 +24,9 @@
 //     Z  the same for the scalar assignment `A(S0,...) = -7`
 // Each position's C++ type is chosen at run time from a menu compiled once (letters):
 //   I int   E end-k   r RangeIndex<int,int,int>   R RangeIndex<end-k,end-k,int>   A __   V intVector   X tmp+2   W end-tmp
-//   U<n> the vector expression number n of VSHAPES   Y<n> the rich scalar expression number n of XSHAPES
-// rank 1: V X W and every U;  rank 2: every mixture of the eight plain letters, the first NVMENU2 U's with a partner
-// out of I E R A V (either order), a Y with the partner V (either order);  rank 3: every mixture of I E R A V (a plain
+//   U<n> the vector expression number n of VSHAPES   Y<n> the rich scalar expression number n of XSHAPES   F FixedArray<int,false,3>
+// rank 1: V X W F and every U;  rank 2: every mixture of the eight plain letters, the first NVMENU2 U's with a partner
+// out of I E R A V (either order), F with the same partners, a Y with the partner V (either order);  rank 3: every mixture of I E R A V (a plain
 // range is passed as R through end-(len-1-k)) and one of the first NVMENU2 U's between two scalars I / E;  rank 4: the fixed menu IX_MENU4 (letters I E R A V).
 #ifndef VERIF_DRV_VIEWS_IDX_H
 #define VERIF_DRV_VIEWS_IDX_H
@@ -62,18 +69,29 @@ inline const char* const* vshape_table() {
   return t;
 }
 
-enum { L_I = 0, L_E = 1, L_r = 2, L_R = 3, L_A = 4, L_V = 5, L_X = 6, L_W = 7, L_U0 = 8, L_Y0 = L_U0 + NVMENU, L_END = L_Y0 + XMENU2 };
+enum { L_I = 0, L_E = 1, L_r = 2, L_R = 3, L_A = 4, L_V = 5, L_X = 6, L_W = 7, L_U0 = 8, L_Y0 = L_U0 + NVMENU, L_F = L_Y0 + XMENU2, L_END = L_F + 1 };
+typedef FixedArray<int,false,3> FixIdx;
 
 struct ISel {
   int letter;            // L_*
   Tok b, e; int s;       // scalar: b; range: b, e, s
-  std::vector<int> ent;  // V: entries; X: entries; W: the K's; U: the entries of v
+  std::vector<int> ent;  // V: entries; X: entries; W: the K's; U: the entries of v; F: the three entries
   int c[3];              // U: the constants of the expression
+  char lay; int lp, lq;  // layout of the intVector: 0 dense, 's' OFF.STR, 'c' K.NC, 'r' K.NR
 };
 inline bool& ix_cf() { static bool v = false; return v; }   // the current call goes through the const overload
 
-inline bool parse_entries(const std::string& t, std::vector<int>& out) {
+inline bool parse_entries(const std::string& t0, std::vector<int>& out, ISel* lay = 0) {
   out.clear();
+  std::string t = t0;
+  size_t bar = t.find('|');
+  if (bar != std::string::npos) {
+    if (!lay || bar < 4) return false;
+    std::vector<std::string> q = split(t.substr(1, bar - 1), '.');
+    if ((t[0] != 's' && t[0] != 'c' && t[0] != 'r') || q.size() != 2 || !parse_int(q[0], lay->lp) || !parse_int(q[1], lay->lq)) return false;
+    lay->lay = t[0];
+    t = t.substr(bar + 1);
+  }
   if (t.empty()) return true;
   std::vector<std::string> p = split(t, ',');
   for (size_t k = 0; k < p.size(); ++k) { int v; if (!parse_int(p[k], v)) return false; out.push_back(v); }
@@ -82,10 +100,14 @@ inline bool parse_entries(const std::string& t, std::vector<int>& out) {
 
 // rank: the rank of the indexed array decides which range letter a plain range gets
 inline bool parse_isel(const std::string& t, int rank, ISel& o) {
-  o.s = 1; o.c[0] = o.c[1] = o.c[2] = 0;
+  o.s = 1; o.c[0] = o.c[1] = o.c[2] = 0; o.lay = 0; o.lp = o.lq = 0;
   if (t.size() >= 2 && t[1] == ':' && (t[0] == 'v' || t[0] == 'x' || t[0] == 'w')) {
     o.letter = t[0] == 'v' ? L_V : t[0] == 'x' ? L_X : L_W;
-    return parse_entries(t.substr(2), o.ent);
+    return parse_entries(t.substr(2), o.ent, &o);
+  }
+  if (t.size() >= 2 && t[0] == 'f' && t[1] == ':') {
+    o.letter = L_F;
+    return parse_entries(t.substr(2), o.ent) && o.ent.size() == 3;
   }
   if (t.size() >= 2 && t[0] == 'u' && t[1] == ':') {
     std::vector<std::string> p = split(t.substr(2), ':');
@@ -97,7 +119,7 @@ inline bool parse_isel(const std::string& t, int rank, ISel& o) {
       if (shape == tab[id]) {
         o.letter = L_U0 + id;
         for (size_t j = 0; j < consts.size(); ++j) o.c[j] = consts[j];
-        return parse_entries(p[1], o.ent);
+        return parse_entries(p[1], o.ent, &o);
       }
     throw BadOp();
   }
@@ -115,6 +137,38 @@ inline bool parse_isel(const std::string& t, int rank, ISel& o) {
   bool any_end = a.b.cls == 1 || a.e.cls == 1;
   o.letter = (rank <= 2 && !any_end) ? L_r : L_R;
   return true;
+}
+
+// the intVector of a selector: dense, or a view (strided / reversed / offset part of a larger intVector, a column or a row
+// of an intMatrix) holding the entries x.ent[j] + add in index order; the returned Array links to the storage it came from
+inline intVector make_iv(const ISel& x, int add) {
+  int n = (int)x.ent.size();
+  if (x.lay == 0 || n == 0) {
+    intVector v(n);
+    for (int j = 0; j < n; ++j) v(j) = x.ent[j] + add;
+    return v;
+  }
+  if (x.lay == 's') {
+    int off = x.lp, str = x.lq, last = off + (n - 1) * str;
+    if (str == 0 || off < 0 || last < 0 || off > 4096 || last > 4096) throw BadOp();
+    int size = (off > last ? off : last) + 3;
+    intVector big(size);
+    for (int k = 0; k < size; ++k) big(k) = x.ent[(k * 5 + 1) % n] + add;      // not entries of the view
+    for (int j = 0; j < n; ++j) big(off + j * str) = x.ent[j] + add;
+    return big(stride(off, last, str));
+  }
+  int k0 = x.lp, m = x.lq;
+  if (m < 1 || m > 64 || k0 < 0 || k0 >= m) throw BadOp();
+  if (x.lay == 'c') {
+    intMatrix im(n, m);
+    for (int j = 0; j < n; ++j) for (int k = 0; k < m; ++k) im(j, k) = x.ent[(j * 3 + k + 1) % n] + add;
+    for (int j = 0; j < n; ++j) im(j, k0) = x.ent[j] + add;
+    return im(__, k0);
+  }
+  intMatrix im(m, n);
+  for (int k = 0; k < m; ++k) for (int j = 0; j < n; ++j) im(k, j) = x.ent[(j + 2 * k + 1) % n] + add;
+  for (int j = 0; j < n; ++j) im(k0, j) = x.ent[j] + add;
+  return im(k0, __);
 }
 
 // the rank-4 menu, as base-32 numbers with position 0 in the lowest digit
@@ -140,10 +194,10 @@ constexpr bool ix_is_u2(int L) { return L >= L_U0 && L < L_U0 + NVMENU2; }
 constexpr bool ix_is_y(int L) { return L >= L_Y0 && L < L_END; }
 constexpr bool ix_partner(int L) { return L == L_I || L == L_E || L == L_R || L == L_A || L == L_V; }
 constexpr bool ix_pair_ok(int F, int L) {
-  return (F < L_U0 && L < L_U0) || (ix_is_u2(F) && ix_partner(L)) || (ix_is_u2(L) && ix_partner(F))
+  return (F < L_U0 && L < L_U0) || ((ix_is_u2(F) || F == L_F) && ix_partner(L)) || ((ix_is_u2(L) || L == L_F) && ix_partner(F))
       || (ix_is_y(F) && L == L_V) || (ix_is_y(L) && F == L_V);
 }
-constexpr bool ix_is_vec(int L) { return L >= L_V && L < L_Y0; }
+constexpr bool ix_is_vec(int L) { return (L >= L_V && L < L_Y0) || L == L_F; }
 // rank 3: every mixture of I E R A V, and one vector expression U<n> (n < NVMENU2) between two scalars I / E
 constexpr bool ix_base5(int L) { return L == L_I || L == L_E || L == L_R || L == L_A || L == L_V; }
 constexpr bool ix_scal(int L) { return L == L_I || L == L_E; }
@@ -250,26 +304,22 @@ template <int Mask, int R, int K, int Code, bool HasVec, typename... As> struct 
                   return IxNext<Mask, R, K, Code, HasVec, L_R, As..., REE>::type::go(a, t, as..., v); }
       case L_A: return IxNext<Mask, R, K, Code, HasVec, L_A, As..., internal::AllIndex>::type::go(a, t, as..., __);
       case L_V: {
-        intVector v((int)x.ent.size());
-        for (size_t j = 0; j < x.ent.size(); ++j) v((int)j) = x.ent[j];
+        intVector v(make_iv(x, 0));
         return IxNext<Mask, R, K, Code, HasVec, L_V, As..., intVector>::type::go(a, t, as..., v);
       }
       case L_X: {
-        intVector tmp((int)x.ent.size());
-        for (size_t j = 0; j < x.ent.size(); ++j) tmp((int)j) = x.ent[j] - 2;
+        intVector tmp(make_iv(x, -2));
         auto v = tmp + 2;
         return IxNext<Mask, R, K, Code, HasVec, L_X, As..., decltype(v)>::type::go(a, t, as..., v);
       }
       case L_W: {
-        intVector tmp((int)x.ent.size());
-        for (size_t j = 0; j < x.ent.size(); ++j) tmp((int)j) = x.ent[j];
+        intVector tmp(make_iv(x, 0));
         auto v = adept::end - tmp;
         return IxNext<Mask, R, K, Code, HasVec, L_W, As..., decltype(v)>::type::go(a, t, as..., v);
       }
       // vector expressions and rich scalars are built inside the call expression (nested expression objects refer to temporaries)
 #define X(ID) case L_U0 + ID: { \
-        intVector tmp((int)x.ent.size()); \
-        for (size_t j = 0; j < x.ent.size(); ++j) tmp((int)j) = x.ent[j]; \
+        intVector tmp(make_iv(x, 0)); \
         typedef decltype(VE_##ID(tmp, x.c)) VT; \
         return IxNext<Mask, R, K, Code, HasVec, L_U0 + ID, As..., VT>::type::go(a, t, as..., VE_##ID(tmp, x.c)); }
       VSHAPES(X)
@@ -279,6 +329,11 @@ template <int Mask, int R, int K, int Code, bool HasVec, typename... As> struct 
         return IxNext<Mask, R, K, Code, HasVec, L_Y0 + ID, As..., XT>::type::go(a, t, as..., XE_##ID(x.b.c)); }
       XSHAPES2(X)
 #undef X
+      case L_F: {
+        FixIdx fv;
+        for (int j = 0; j < 3; ++j) fv(j) = x.ent[j];
+        return IxNext<Mask, R, K, Code, HasVec, L_F, As..., FixIdx>::type::go(a, t, as..., fv);
+      }
       default: throw BadOp();
     }
   }
